@@ -85,12 +85,13 @@ TARGETS = [
     ('append_chars', 'size_t (char *&, const char *, size_t)'),
     ('cleanup_utf8', 'size_t (char *, const char *, size_t)'),
     ('hex_encode', 'void (char *, const void *, size_t) noexcept'),
+    ('b64_encode', 'void (char *, const void *, size_t) noexcept'),
 ]
 # a pointer parameter that points into the array of another parameter (one past its end): it is passed as an index
 # functions whose first `T *` parameter with a non-const pointee is a write-only cursor (used only as `*p++ = e`)
 PLAIN_CURSOR_FUNCS = ('utf8_convert_from_latin_1', 'utf16_convert_from_utf32', 'utf8_convert_from_utf32', 'utf32_convert_from_utf8',
                       'utf32_convert_from_utf16', 'utf16_convert_from_utf8', 'utf16_convert_from_latin_1', 'utf32_convert_from_latin_1',
-                      'latin_1_convert_from_utf8', 'latin_1_convert_from_utf16', 'latin_1_convert_from_utf32', 'utf8_convert_from_utf16', 'cleanup_utf8', 'hex_encode')
+                      'latin_1_convert_from_utf8', 'latin_1_convert_from_utf16', 'latin_1_convert_from_utf32', 'utf8_convert_from_utf16', 'cleanup_utf8', 'hex_encode', 'b64_encode')
 ALIAS_PARAMS = {('extract_utf8', 'end'): 'utf8', ('extract_utf16', 'end'): 'utf16'}
 # a translated function that returns a pointer returns it into the array of this parameter
 RET_BASE_PARAM = 0
@@ -714,6 +715,9 @@ class Translator:
                 raise Unsupported('assertion in a function with a T*& parameter')
             if self.out_cursor is not None and not self.void:
                 v = '(%s, %s)' % (v, env[('out', self.out_cursor)])
+            elif self.out_cursor is not None:
+                # a void function whose only result is what it stored: the abort is marked by a unit no store can produce
+                v = '(%s ++ [ext_abort_unit])' % env[('out', self.out_cursor)]
             return '(Some %s)' % v if self.opt else v
         if k == 'ContinueStmt':
             if not self.loop_stack:
@@ -840,6 +844,31 @@ class Translator:
             t = self.stmts([inner[1]] + rest, env)
             e = self.stmts(([inner[2]] if len(inner) > 2 else []) + rest, env)
             return self.with_binds(binds, '(if z2b %s then %s else %s)' % (cond, t, e))
+        if k == 'SwitchStmt' and (contains_kind(s, ('ReturnStmt',)) or contains_assert(s) or
+                                  (self.out_cursor is not None and (contains_store(s, self.out_cursor) or self.contains_outcall(s)))):
+            # switch whose groups store through the cursor, return or assert (none falls through, each ends in `break`;
+            # switch_groups rejects anything else): a chain of tests on the once-evaluated selector, and the rest of the
+            # block is translated after every group
+            if contains_kind(inner[-1], ('ContinueStmt', 'WhileStmt', 'ForStmt')):
+                raise Unsupported('loop or continue inside a switch')
+            cond_node, groups = self.switch_groups(s)
+            for _, body in groups:
+                if any(contains_kind(c, ('BreakStmt',)) for c in body):
+                    raise Unsupported('break nested inside a switch group')
+            cond, _, binds = self.full_expr(cond_node, env)
+            sel = self.fresh('sel')
+            out = None
+            for labels, body in groups:
+                if None in labels:
+                    out = self.stmts(body + rest, env)
+            if out is None:
+                out = self.stmts(rest, env)
+            for labels, body in reversed(groups):
+                real = [l for l in labels if l is not None]
+                if real:
+                    test = ' || '.join('Z.eqb %s %s' % (sel, l) for l in real)
+                    out = '(if %s then %s else %s)' % (test, self.stmts(body + rest, env), out)
+            return self.with_binds(binds, 'let %s := %s in\n  %s' % (sel, cond, out))
         if self.out_cursor is not None and k == 'BinaryOperator' and s.get('opcode') == '=' and is_cursor_store(inner[0], self.out_cursor):
             v, pend, binds = self.full_expr(inner[1], env, allow_pending=True)
             lets, env2 = self.apply_pending(pend, env)
@@ -1135,6 +1164,7 @@ Definition wraps (bits : Z) (x : Z) : Z := (x + 2 ^ (bits - 1)) mod 2 ^ bits - 2
 Definition b2z (b : bool) : Z := if b then 1 else 0.
 Definition z2b (x : Z) : bool := negb (x =? 0).
 Definition ext_abort : Z := (-1).
+Definition ext_abort_unit : Z := (-4096).
 '''
 
 
